@@ -413,9 +413,24 @@ def match_sets(a, b):
     return worst
 
 
-def spec_check(case, real):
+def run_predicates(Hx, psteps, M, noise, tol):
+    """the decidable predicates that attribute clauses / delimit what can be asked, from ONE Hessenberg buffer `Hx` and its step
+    count: (beta, first noise breakdown jn, first clipped step jc, clip_genuine)"""
+    beta = np.array([Hx[i + 1, i].real for i in range(M)])
+    jn = first_small(Hx, psteps, noise)
+    jc = first_small(Hx, psteps, tol / 2 * (1 - 1e-12))
+    return beta, jn, jc, bool(jc < psteps and beta[jc] > noise)
+
+
+def spec_check(case, real, mrun=None):
     """the property's statements on the REAL outputs.  -> list of (name, clause | None, detail) of failures.
-    clause None = a hard failure (no modelled defect explains it)."""
+    clause None = a hard failure (no modelled defect explains it).
+    `mrun` = the MODEL's run on the same input (decode_model of the Lean driver's answer).  Round 4: every predicate that EXCUSES a
+    failure by a recorded clause (noClip, stopExact, breakdownNotMasked) or delimits the part of the output a statement is asked of
+    (first noise breakdown, first clipped step, exact stop) is evaluated on the model's H of THAT column - a function of the input
+    (A, v, max_iters, tol) - and no longer on the real H, which a defective code could shape to excuse itself.  The statements
+    themselves (residuals, orthogonality, stopping numbers) are evaluated on the real output as before.  Without a usable model run
+    (mrun None / driver error / non-finite model H) NO clause is attributed: every failure is a hard failure."""
     fails = []
     if "exception" in real:
         return [("raises", None, real["exception"])]
@@ -433,10 +448,23 @@ def spec_check(case, real):
     if not (0 <= steps <= min(M, n)):
         fails.append(("cap", None, f"steps={steps} > min(max_iters, n)={min(M, n)}"))
         return fails
+    have_ref = (mrun is not None and "error" not in mrun and getattr(mrun.get("H"), "shape", None) == (k, M + 1, M)
+                and bool(np.all(np.isfinite(mrun["H"]))) and 0 <= mrun["steps"] <= min(M, n))
+
+    def excuse(clause):
+        """a recorded clause may only be attributed when the predicate was evaluated on the model's run"""
+        return clause if have_ref else None
+
+    def preds(c):
+        if have_ref:
+            return run_predicates(mrun["H"][c], mrun["steps"], M, noise, tol) + (mrun["steps"],)
+        return run_predicates(real["H"][c], steps, M, noise, tol) + (steps,)
+
     any_large = False
     for c in range(k):
         Q, H, v = real["Q"][c], real["H"][c], V[c]
-        beta = np.array([H[i + 1, i].real for i in range(M)])
+        beta = np.array([H[i + 1, i].real for i in range(M)])       # the REAL sub-diagonal: used in statements only
+        betap, jn, jc, clip_genuine, psteps = preds(c)               # predicates: on the model's run of this column
         if not np.allclose(Q[:, 0], v / np.linalg.norm(v), rtol=0, atol=1e-12):
             fails.append(("first-column", None, f"col {c}"))
         if np.abs(np.tril(H, -2)).max(initial=0.0) != 0.0:
@@ -445,20 +473,18 @@ def spec_check(case, real):
             fails.append(("subdiag-nonneg", None, f"col {c}"))
         if np.abs(Q[:, steps + 1:]).max(initial=0.0) != 0.0 or np.abs(H[:, steps:]).max(initial=0.0) != 0.0:
             fails.append(("padding-zero", None, f"col {c}: buffer beyond the executed steps is not zero"))
-        jn = first_small(H, steps, noise)                       # first noise breakdown
-        jc = first_small(H, steps, tol / 2 * (1 - 1e-12))       # first clipped step (noise or genuine)
-        clip_genuine = jc < steps and beta[jc] > noise
+        # jn = first noise breakdown, jc = first clipped step (noise or genuine): of the MODEL's run (see preds)
         # Arnoldi relation for the executed steps up to the first noise breakdown
         for i in range(min(steps, jn + 1)):
             res = np.linalg.norm(A @ Q[:, i] - Q[:, :i + 2] @ H[:i + 2, i])
             if res > 1e-9 * sc:
-                clause = "noClip" if (noise < beta[i] < tol / 2) else None
-                fails.append(("arnoldi-relation", clause, f"col {c} step {i}: residual {res:.3e}, beta={beta[i]:.3e}, tol/2={tol / 2:.3e}"))
+                clause = excuse("noClip") if (noise < betap[i] < tol / 2) else None
+                fails.append(("arnoldi-relation", clause, f"col {c} step {i}: residual {res:.3e}, beta={beta[i]:.3e} (model {betap[i]:.3e}), tol/2={tol / 2:.3e}"))
         # orthonormal columns 0..r, r = steps before the first exact breakdown
         r = min(jn, steps)
         G = Q[:, :r + 1].conj().T @ Q[:, :r + 1] - np.eye(r + 1)
         if np.abs(G).max() > 1e-7:
-            clause = "noClip" if (clip_genuine and jc < r) else None
+            clause = excuse("noClip") if (clip_genuine and jc < r) else None
             fails.append(("orthonormal", clause, f"col {c}: |Q^H Q - I|={np.abs(G).max():.3e} on columns 0..{r}"))
         # (c): no more than n orthonormal columns: column n (if any) is zero to rounding
         if steps == n and jn >= n - 1 and not clip_genuine:
@@ -468,19 +494,20 @@ def spec_check(case, real):
         if jn < steps - 1:
             g = max(np.abs(Q[:, jn + 2:]).max(initial=0.0), np.abs(H[:, jn + 1:]).max(initial=0.0) / sc)
             if g > 1e-6:
-                fails.append(("post-breakdown-zero", "breakdownNotMasked",
-                              f"col {c}: breakdown in step {jn} (norm {beta[jn]:.2e}) but {steps - 1 - jn} further steps were taken: "
+                fails.append(("post-breakdown-zero", excuse("breakdownNotMasked"),
+                              f"col {c}: breakdown in step {jn} (model norm {betap[jn]:.2e}) but {steps - 1 - jn} further steps were taken: "
                               f"later columns of Q/H reach {g:.3e}"))
         # full-buffer relation A Q[:, :M] = Q H
         if jn >= steps - 1:
             resf = np.linalg.norm(A @ Q[:, :M] - Q @ H)
             thr = 1e-9 * sc + 20 * noise * sc * 2 / tol
-            exact_stop = steps == M or (steps > 0 and beta[steps - 1] <= noise)
+            exact_stop = psteps == M or (psteps > 0 and betap[psteps - 1] <= noise)      # of the model's run
             if resf > thr:
                 if clip_genuine:
-                    fails.append(("full-relation", "noClip", f"col {c}: |A Q - Q H|={resf:.3e}"))
+                    fails.append(("full-relation", excuse("noClip"), f"col {c}: |A Q - Q H|={resf:.3e}"))
                 elif not exact_stop:
-                    fails.append(("full-relation", "stopExact", f"col {c}: |A Q[:, :m] - Q H|={resf:.3e}, steps={steps} < max_iters={M}, last norm {beta[steps - 1]:.3e}"))
+                    fails.append(("full-relation", excuse("stopExact"), f"col {c}: |A Q[:, :m] - Q H|={resf:.3e}, model steps={psteps} < max_iters={M}, "
+                                                              f"model's last norm {betap[psteps - 1]:.3e}"))
                 else:
                     fails.append(("full-relation", None, f"col {c}: |A Q - Q H|={resf:.3e} > {thr:.3e}"))
         if steps > 0 and beta[steps - 1] > tol * beta[0]:
@@ -503,32 +530,29 @@ def spec_check(case, real):
     # H = Q^H A Q on the orthonormal columns (projected matrix), for every start vector
     for c in range(k):
         Q, H = real["Q"][c], real["H"][c]
-        beta = np.array([H[i + 1, i].real for i in range(M)])
-        jn = first_small(H, steps, noise)
-        jc = first_small(H, steps, tol / 2 * (1 - 1e-12))
-        clip_genuine = jc < steps and beta[jc] > noise
+        betap, jn, jc, clip_genuine, psteps = preds(c)
         r = min(jn, steps)
         ncol = min(steps, jn + 1, r + 1)
         if ncol > 0:
             P = Q[:, :r + 1].conj().T @ (A @ Q[:, :ncol]) - H[:r + 1, :ncol]
             if np.abs(P).max() > 1e-6 * sc * (r + 2):
-                clause = "noClip" if (clip_genuine and jc < r) else None
+                clause = excuse("noClip") if (clip_genuine and jc < r) else None
                 fails.append(("projection", clause, f"col {c}: |Q^H A Q - H|={np.abs(P).max():.3e} on the leading {r + 1} x {ncol} block"))
     # arnoldi_eigs
     if "eigvals" in real:
         ev = real["eigvals"]
         H, Q = real["H"][0], real["Q"][0]
-        beta = np.array([H[i + 1, i].real for i in range(M)])
-        jn = first_small(H, steps, noise)
+        betap, jn, jc, clip_genuine, psteps = preds(0)                # predicates on the model's run of the (single) start vector
         lam = np.linalg.eigvals(A)
         full_grade = steps == n and jn >= n - 1
-        invariant = steps > 0 and (full_grade or beta[steps - 1] <= noise) and not any(noise < beta[i] < tol / 2 for i in range(steps))
+        invariant = (steps > 0 and psteps > 0 and (full_grade or betap[psteps - 1] <= noise)
+                     and not any(noise < betap[i] < tol / 2 for i in range(psteps)))
         if jn < steps - 1:
             # stepping continued after a noise breakdown: H holds amplified noise, the eigenvalues are garbage
             invariant = False
             spurious = [x for x in ev if min(abs(x - lam)) > etol0(sc, noise, tol) and abs(x) > etol0(sc, noise, tol)]
             if spurious:
-                fails.append(("eigs-garbage", "breakdownNotMasked", f"{len(spurious)} returned eigenvalues are neither eigenvalues of A nor zero, e.g. {spurious[0]:.4g}"))
+                fails.append(("eigs-garbage", excuse("breakdownNotMasked"), f"{len(spurious)} returned eigenvalues are neither eigenvalues of A nor zero, e.g. {spurious[0]:.4g}"))
         etol = 1e-6 * sc + 50 * noise * sc * 2 / tol
         if invariant:
             # no spurious eigenvalues: every returned value is an eigenvalue of A
@@ -663,7 +687,7 @@ class Engine:
 
     def unexcused(self, fails):
         """failed statements that no RECORDED clause explains: clause None, or a clause name that is not listed for this property in
-        known_findings.json (e.g. the regression detectors `noPaddingEigs`, `keepLastRow` of repaired defects)"""
+        known_findings.json (e.g. the regression detector `noPaddingEigs` of the repaired defect (a))"""
         return [f for f in fails if f[1] is None or f[1] not in self.known]
 
     def account(self, case, real):
@@ -703,7 +727,7 @@ class Engine:
                     key = "eig-not-reproducible(skipped)"
                 self.dist.setdefault("arnoldiEigs_model_runs", {}).setdefault(key, 0)
                 self.dist["arnoldiEigs_model_runs"][key] += 1
-        fails = spec_check(case, real)
+        fails = spec_check(case, real, model)
         if mism:
             self.dist["outcomes"]["real!=model"] += 1
             hard = self.unexcused(fails)
@@ -798,9 +822,17 @@ class Engine:
         for nn in range(n - 1, 0, -1):
             add(As[:nn, :nn], V[:, :nn], nn, 1e-7)
             add(As[:nn, :nn], V[:1, :nn], nn + 1, 1e-7)
-        for c2 in cands[:budget]:
+        # the clause predicates of spec_check are evaluated on the MODEL's run of each candidate (never on its real output):
+        # one driver call for the whole neighbourhood
+        cands = cands[:budget]
+        try:
+            answers = run_driver([driver_case(c2, i) for i, c2 in enumerate(cands)])
+        except Exception:  # noqa: BLE001
+            answers = {}
+        for i, c2 in enumerate(cands):
             r = eval_real(c2)
-            hard = self.unexcused(spec_check(c2, r))
+            m2 = decode_model(answers.get(i, {"error": "no answer from the Lean driver"}), c2["complex"])
+            hard = self.unexcused(spec_check(c2, r, m2))
             if hard:
                 return c2, hard
         return None
@@ -852,7 +884,7 @@ def run(ctx):
         eng.account(c, real)
         st = eng.judge(c, real, model)
         print(json.dumps({"replayed": {k: c[k] for k in ("n", "M", "tol", "cls", "starts")}, "status": st,
-                          "spec_failures": [list(f) for f in spec_check(c, real)],
+                          "spec_failures": [list(f) for f in spec_check(c, real, model)],
                           "real_vs_model": compare_real_model(c, real, model)})[:3000])
     else:
         g = np.random.default_rng(random.Random(ctx.seed * 7919 + 15).getrandbits(64))
@@ -870,7 +902,9 @@ def run(ctx):
                    "(Arnoldi.arnoldiEigs) is executed by the driver for every single-start case, eig := LAPACK's answer of the real run, and its "
                    "eigenvalues / eigenvectors are compared with the real ones (distributions.arnoldiEigs_model_runs); the property's "
                    "statements (incl. both directions of the stopping rule, H = Q^H A Q, residuals of the returned eigenvectors) are evaluated "
-                   "on the real outputs with NumPy" % (12 if not ctx.thorough else 40))
+                   "on the real outputs with NumPy; the predicates that attribute a recorded clause to a failed statement (first noise breakdown, first clipped "
+                   "step, exact stop) are evaluated per start vector on the MODEL's H (a function of the input), never on the real H; without a usable "
+                   "model run no clause is attributed" % (12 if not ctx.thorough else 40))
     cov["trusted_base_extra"] = ["lean/DriverArnoldi.lean and the Float/CF instances of Arnoldi.Num / Arnoldi.VecOps (IEEE doubles; only the correspondence uses them)",
                                  "xnp.eig (LAPACK geev) is a parameter of the model under the contract Arnoldi.EigPairs / EigComplete (satisfiable: Hess3.eigPairs_W, "
                                  "Hess3.eigComplete_W): the driver runs Arnoldi.arnoldiEigs with eig := LAPACK's answer on the real run's matrix, and the harness checks "
